@@ -600,8 +600,8 @@ def leaf_specs(tier, classes=None):
                 if D == 3 and not T and (sum(m) + sum(n)) % 2:
                     continue
                 for mode in ("full", "valid"):
-                    if mode == "valid" and not all(a >= b for a, b in zip(m, n)):
-                        continue  # filter longer than data in valid mode: C08's subject
+                    if mode == "valid" and not (all(a >= b for a, b in zip(m, n)) or all(a < b for a, b in zip(m, n))):
+                        continue  # mixed longer/shorter axes are not admitted by valid mode (C08 decides their rejection)
                     for st in ([None] + [list(t) for t in itertools.product((1, 2, 3), repeat=D) if any(x > 1 for x in t)][:: (1 if D == 1 else 3)]):
                         for mc, batch in ((False, []), (False, [2]), (True, []), (True, [2])):
                             if (mc or batch) and D > 1 and (st is not None or not T):
